@@ -208,6 +208,23 @@ class Class(Node):
     nohash = self.Replace(_name2item=None)
     return super(Class, nohash).__hash__()
 
+  def __eq__(self, other):
+    # Like __hash__, pretend that _name2item doesn't exist: whether Lookup()
+    # has been called on a class must not change what it is equal to.
+    if self is other:
+      return True
+    if not isinstance(other, Class):
+      return NotImplemented
+    if self._name2item:
+      self = self.Replace()  # pylint: disable=self-cls-assignment
+    if other._name2item:
+      other = other.Replace()
+    return super(Class, self).__eq__(other)
+
+  def __ne__(self, other):
+    eq = self.__eq__(other)
+    return eq if eq is NotImplemented else not eq
+
   def IterChildren(self) -> Generator[tuple[str, Any | None], None, None]:
     for name, child in super().IterChildren():
       if name == '_name2item':
